@@ -25,6 +25,15 @@ active — with the recorded graph transported by the permutation).  Relative to
 
 Intensities are integers (times a dyadic or small integer scale), so every float sum the implementation
 forms before the logarithm is exact and stage A can be compared exactly.
+
+Written table (kind = "table"): `picked_group_fdr.quantification.main(argv)` in-process with the same recording
+wrappers (a share as a subprocess of `python -m picked_group_fdr.quantification`) on a generated MaxQuant
+evidence.txt — Fraction column, SILAC channels, --experimental_design_file / --file_list_file — vs the model's
+`lfqTable` (PgFdr.C11.tableStageA, experimentsOf, lfqHeaders, namedColumns): experiment list, LFQ header names
+in order, stage A per protein group on the labelled samples e * C + c as above, and every LFQ cell of the
+written file against the model's (header, value) pair ('%.0f': 0.5).  The oracle reads the written cells BY
+HEADER NAME and states the property on them from the evidence rows of the case alone (own assignment of
+experiment / fraction, own aggregation over fractions, own channel expansion).
 """
 import contextlib
 import itertools
@@ -750,7 +759,7 @@ def impl_group_view(r, stab):
 class P(Prop):
     id = "C11"
     level = "proof"
-    quick_cases = 234
+    quick_cases = 240
     thorough_cases = 5000
     chunk = 13
     rule = (
@@ -763,17 +772,29 @@ class P(Prop):
         "peptides per batch, a probe group of 3 or 5 exactly consistent peptides over all 16-30 samples, every pair of samples "
         "sharing >= minr of them, FastLFQ on); 8 % graph-only cases (fastlfq.build_graph / prune_graph on 4-40 peptide sets in "
         "1-4 clusters, min neighbours 1-5, average 2-9; not modelled); "
+        "16 % written-table cases: python -m picked_group_fdr.quantification (in-process main(argv) with the recording wrappers; "
+        "12 % of those with < 10 samples as a subprocess) on a generated evidence.txt with 2-11 experiments, label-free or SILAC "
+        "(2 / 3 channels), optional Fraction column with precursors split over 1-3 fractions of an experiment (splits differing per "
+        "experiment), optional --experimental_design_file / --file_list_file overriding experiment and fraction by raw file (evidence "
+        "cells then partly garbage, design order = column order, an unused experiment), shuffled column order, 1-3 protein groups of "
+        "2-7 peptides, multiplicative integer data with optional noise, missing precursors, zeroed / empty channel cells, duplicates "
+        "of lower intensity, PEPs around the cutoff, MBR rows; the LFQ cells are read back by header name; "
         "non-trivial = some group has a valid sample pair (graph-only: >= 8 samples and edges pruned); distinct by sha1 of the case"
     )
     assumptions = [
         "float sums of the generated integer intensities are exact, so the implementation's intensity matrix and total are the exact rationals",
         "the FastLFQ sample graph is recorded from the implementation (fastlfq.build_graph / prune_graph are not modelled)",
         "scipy lsqr, bottleneck nanmedian, numpy log/exp are exercised and checked by certificate / tolerance, not modelled",
-        "SILAC channels are not modelled (num_silac_channels = 0)",
+        "written-table cases: the PEP cutoff of the run is recomputed in the harness (fdr.calc_post_err_prob_cutoff replicated literally; C17's subject); "
+        "Fraction labels are the integers 1-9 (string order = integer order); every row of a file has as many SILAC cells as the file has channels",
+        "NaN intensities and the multi-threaded JobPool path are not modelled",
     ]
     trusted_extra = [
         "numpy.linalg.lstsq (oracle's least-squares reference, used only to find/confirm failing inputs)",
         "recording wrappers around lfq._getPeptideIntensities/_getLogMedianPeptideRatios/_applyLargeRatioStabilization/_buildLinearSystem/lsqr and fastlfq.prune_graph",
+        "written-table cases: rendering of the case into evidence.txt / proteinGroups.txt / peptide map / design file, csv reading of the written table, "
+        "'%.0f' rounding slack 0.5 per cell; for --file_list_file runs writers.factory.init_triqler_params is wrapped to ignore the PATH it is handed "
+        "(known crash of the glue outside C11, notes/C12.md)",
     ]
 
     # -- generation -----------------------------------------------------------------------------
@@ -1109,6 +1130,9 @@ class P(Prop):
         by_id = {row[header.index("Protein IDs")]: row for row in body}
         out = {"headers": [h for h in header if h.startswith("LFQ Intensity ")], "ids": ids, "groups": []}
         inproc = case.get("via") != "cli"
+        if inproc and not seen and not out["headers"]:
+            inproc = False  # LFQIntensityColumns.is_valid was false (a single experiment): no LFQ columns, nothing recorded
+            out["no_lfq"] = True
         if inproc:
             out["experiments"] = seen.get("experiments")
             if seen.get("ids") != ids or len(rec["groups"]) != len(ids):
@@ -1130,7 +1154,7 @@ class P(Prop):
     def model_request_table(self, case, impl_out):
         import numpy as np
 
-        if case.get("via") == "cli" or not isinstance(impl_out, dict) or "groups" not in impl_out:
+        if case.get("via") == "cli" or not isinstance(impl_out, dict) or "groups" not in impl_out or impl_out.get("no_lfq"):
             return None  # subprocess runs: nothing recorded, the oracle alone reads the written table
         m, _ = table_design(case)
         by_id = {g["id"]: g for g in case["groups"]}
@@ -1472,6 +1496,13 @@ class P(Prop):
         cutoff = table_cutoff(case)
         graph = impl_out.get("_rec", {}).get("graph") if case["fast"] else None
         by_id = {g["id"]: g for g in impl_out["groups"]}
+        # The samples are NUMBERED in the order in which their names appear in the written table: the orientation of a
+        # pair (which sample is the numerator of the median ratio) follows the column order, and the medians of an even
+        # number of ratios are not antisymmetric (known finding lfq-even-median-orientation) — the property does not
+        # fix the column order, so the expectation must not depend on it.  Values are still taken by NAME.
+        pos = [got.index(h) for h in names]  # oracle sample s -> number
+        names = [h for h in got if h in set(names)]
+        renum = lambda ps: [[p[0], p[1], pos[p[2]], p[3], p[4], p[5]] for p in ps]
         label = lambda s: "'%s'" % names[s]
         for g in case["groups"]:
             if g["id"] not in by_id:
@@ -1484,7 +1515,11 @@ class P(Prop):
                 yield "table-direct", "table: group %s: LFQ cells %r are not numbers" % (g["id"], cells)
                 continue
             sel, allp = table_precursors(case, g, cutoff)
-            gfac = [g["b"].get(e, [1] * len(chans))[c] for e in exps for c in range(len(chans))]
+            sel, allp = renum(sel), renum(allp)
+            gfac0 = [g["b"].get(e, [1] * len(chans))[c] for e in exps for c in range(len(chans))]
+            gfac = [0] * ns
+            for s0, t in enumerate(pos):
+                gfac[t] = gfac0[s0]
             why = check_group_direct(ns, sel, cutoff, case["minr"], case["stab"], graph, out, gfac, TABLE_SLACK, allp, label)
             if why:
                 yield "table-direct", "table: group %s (%d experiments x %d channels, read by header name): %s" % (g["id"], len(exps), C, why)
@@ -1495,6 +1530,7 @@ class P(Prop):
             # only where the graph is used: some group has >= MIN_SAMPLES valid sample columns
             for g in case["groups"]:
                 sel, allp = table_precursors(case, g, cutoff)
+                sel, allp = renum(sel), renum(allp)
                 if len(spec(ns, sel, cutoff, case["minr"], case["stab"], None, allp)["valid"]) >= MIN_SAMPLES:
                     yield "graph-contract", "graph-contract: the FastLFQ sample graph used by append_columns does not connect the %d samples (%d experiments x %d channels; edges %r)" % (
                         ns, len(exps), max(1, C), graph)
